@@ -393,7 +393,10 @@ class Ref:
             elif k == 'measure':
                 qs = self.flat(s[1])
                 cname = s[2][0]
-                cs = (list(range(dict(self.cregs)[cname])) if s[2][1] is None else [s[2][1]])
+                csz = dict(self.cregs)[cname]
+                if s[2][1] is not None and s[2][1] >= csz:
+                    raise Bad()              # classical bit outside its register
+                cs = list(range(csz)) if s[2][1] is None else [s[2][1]]
                 self.ops.append(('M', tuple(qs), tuple(sorted(
                     (q, cname, c) for q, c in zip(qs, cs)))))
             elif k == 'reset':
